@@ -85,7 +85,13 @@ def _reset_history(
       history_out[worldid, adr] = phase
       history_out[worldid, adr + 1] = float(nsample - 1)
       for j in range(nsample):
-        history_out[worldid, adr + 2 + j] = phase - float(nsample - 1 - j) * period
+        # samples are taken at steps: round the sample time up to the step grid (as MuJoCo does),
+        # unless it already is a multiple of the timestep up to float32 round-off
+        steps = (phase - float(nsample - 1 - j) * period) / timestep
+        nearest = wp.round(steps)
+        if wp.abs(steps - nearest) > 1.0e-4:
+          nearest = wp.ceil(steps)
+        history_out[worldid, adr + 2 + j] = nearest * timestep
       for j in range(nsample * sensor_dim[i]):
         history_out[worldid, adr + 2 + nsample + j] = 0.0
 
